@@ -77,12 +77,23 @@ def _fixed_width_unpack(call: ast.Call, callee: str, term_of, fold=None) -> bool
         a = ast.parse(term_of(buf) if term_of else ast.unparse(buf), mode='eval').body
     except SyntaxError:
         return False
-    if isinstance(a, ast.Subscript) and isinstance(a.slice, ast.Slice) and a.slice.step is None:
-        lo = a.slice.lower.value if isinstance(a.slice.lower, ast.Constant) else (0 if a.slice.lower is None else None)
-        hi = a.slice.upper.value if isinstance(a.slice.upper, ast.Constant) else None
-        if isinstance(lo, int) and isinstance(hi, int) and hi - lo == width:
-            return True
-    return False
+    def window(x):
+        """(lo, hi) of ``buf[a:b][c:d]...`` with non-negative literal bounds, relative to the innermost buffer; hi may be None"""
+        if not (isinstance(x, ast.Subscript) and isinstance(x.slice, ast.Slice) and x.slice.step is None):
+            return (0, None)
+        lo = x.slice.lower.value if isinstance(x.slice.lower, ast.Constant) else (0 if x.slice.lower is None else None)
+        hi = x.slice.upper.value if isinstance(x.slice.upper, ast.Constant) else (None if x.slice.upper is None else 'no')
+        if not isinstance(lo, int) or lo < 0 or hi == 'no' or (hi is not None and (not isinstance(hi, int) or hi < 0)):
+            raise ValueError
+        ilo, ihi = window(x.value)
+        nlo = ilo + lo
+        nhi = ihi if hi is None else (ilo + hi if ihi is None else min(ihi, ilo + hi))
+        return (nlo, nhi)
+    try:
+        lo, hi = window(a)
+    except ValueError:
+        return False
+    return isinstance(a, ast.Subscript) and hi is not None and hi - lo == width
 
 
 def folder(repo: Repo, module: str, cls: Optional[str] = None):
